@@ -44,8 +44,11 @@ def pline (ps : PS) (line : String) : PS :=
     | [] => { ps with err := some "end without begin" }
     | [f] => { ps with stack := [], root := some f.flat }
     | f :: g :: rest => { ps with stack := { g with subs := f.flat :: g.subs } :: rest }
-  | "test" :: name :: _ :: _ :: rest =>
-    let body := ((" ".intercalate rest).splitOn ";").headD ""
+  | "test" :: name :: _ :: ctx :: rest =>
+    -- `body;setup;teardown`: a test with a context runs its setup, its body and its teardown as one script (the prologue that
+    -- resets the framework's per-test state comes before the setup, the tally after the teardown)
+    let parts := (" ".intercalate rest).splitOn ";"
+    let body := if ctx = "1" then parts.getD 1 "" ++ " " ++ parts.headD "" ++ " " ++ parts.getD 2 "" else parts.headD ""
     match ((body.splitOn " ").filter (· ≠ "")).mapM parseFAct, ps.stack with
     | some acts, f :: fs => { ps with stack := { f with tests := (name, acts.flatten) :: f.tests } :: fs }
     | _, _ => { ps with err := some s!"bad test line {line}" }
